@@ -298,8 +298,14 @@ func (g *G) intLit() E {
 	default:
 		v = smallInts[g.r.Intn(len(smallInts))]
 	}
+	if g.r.Chance(1, 40) {
+		// the most negative int: its operand 9223372036854775808 does not fit int64 (formerly the known finding
+		// minint64-literal)
+		g.f("expr:minint64-literal")
+		s := "-9223372036854775808"
+		return E{s, s, 6, true}
+	}
 	if g.r.Chance(1, 5) {
-		// (the literal -9223372036854775808 is the known finding minint64-literal)
 		s := fmt.Sprintf("-%d", v)
 		return E{s, s, 6, true}
 	}
@@ -1512,11 +1518,12 @@ func (g *G) genSwitch() E {
 		g.f("stmt:switch-tagless")
 		head = E{"switch {\n", "switch {\n", 0, false}
 	} else {
-		// the switch's label is taken after init and tag are walked: an inlined helper with a loop in them would
-		// consume the label of a labeled switch (known finding inline-steals-label)
-		g.noLoopInline = true
+		// an inlined helper with a loop (VarSum, SumVar) in the tag / init of a labeled switch: the switch keeps its
+		// label (formerly the known finding inline-steals-label)
 		t := g.genInt(2)
-		g.noLoopInline = false
+		if strings.Contains(t.p, "inline.VarSum") || strings.Contains(t.p, "inline.SumVar") {
+			g.f("stmt:switch-tag-loop-inline")
+		}
 		if isLit(t) {
 			if v := g.pickVar(KInt, false); v != nil {
 				t = g.use(v)
